@@ -61,7 +61,7 @@ RULE = (
     "bounded-exhaustive sequences over a %d-operation alphabet (all sequences of length <=2 quick / <=3 thorough) x 1, 2, 3 fixed "
     "dimensions, each run densely observed (full comparison after every operation) and sparsely observed (no read of any live vector "
     "between operations, full comparison at the end; of the length-3 sequences every third one), plus seeded random histories of depth 15 (every tenth: 40), half of them sparse; every history starts from a randomly shaped (sizes 1-4), randomly "
-    "populated vector (0-5 rows per cell, unset cells, float or int cells) and operation parameters (indices, values, field "
+    "populated vector (1-4 fields, sometimes 9-16; 0-5 rows per cell, unset cells; float, int or mixed-dtype cells) and operation parameters (indices, values, field "
     "names) are drawn from the case seed. non-trivial = two populated cells with different row counts existed and the history "
     "contains a schema change or a block (slice/list) access; distinct = (number of fixed dimensions, observation mode, operation-kind sequence)" % len(ALPHABET)
 )
@@ -75,6 +75,9 @@ ASSUMPTIONS = [
     "calls the model marks invalid (wrong column count, non-2-D cell, wrong number of arrays for a block, duplicate/existing/unknown field, wrong flattened length, out-of-range position, wrong number of get_data/set_data indices) must raise (any exception type) and leave every live vector unchanged; negative positions in get_data/set_data may raise or mean what they mean for __getitem__",
     "unit texts the caller did not choose (default units, units of added fields) are adopted from the library; only their count and position are judged",
     "cell dtype is not part of the property: values are compared exactly, the model adopts the real cell's dtype whenever the values agree; integer cells only receive integer-closed field arithmetic",
+    "a quarter of the histories use vectors whose cells have different dtypes (int64 -- also from Python-int nested lists -- and float64 side by side, in any row-major order); flattened views are compared by value with the numpy-promoted concatenation; in those vectors field arithmetic keeps integers far below 2**53 so that the float64 view of an integer column is exact and the write-back law is meaningful",
+    "15% of the histories start from a wide vector (9-16 fields); remove_fields lists name the fields in any order and often leave only 1-4 survivors",
+    "outputs of the API are fed back as inputs: a field is written from the field view of another / the same field of the same vector, of a copy, of another live vector with the same number of rows, or from a flattened field (expected: the values of that field at call time, cast into each cell's dtype); the list get_data returns for a block is assigned back to that block (expected: no change)",
     "comparisons are exact (model and library perform the same IEEE operations on the same operands): tolerance 0, NaN equals NaN",
 ]
 BUDGET = {"quick": {"soft_s": 150}, "thorough": {"soft_s": 900}}
@@ -261,13 +264,15 @@ def _byte_bounds(a):
 # generators
 
 
-POOL = ["x", "y", "z", "w", "kx", "ky", "int", "amp", "phase", "t"]
+POOL = ["x", "y", "z", "w", "kx", "ky", "int", "amp", "phase", "t", "qx", "qy", "h", "k", "l", "theta", "background", "sigma"]
 UNITS = ["A", "mrad", "none", "1/A", "e", "px"]
 
 
 def _rand_cell(rng, nf, kind, rows=None):
     if rows is None:
         rows = int(rng.choice([0, 1, 1, 2, 2, 3, 3, 4, 5]))
+    if kind == "mixed":  # every cell draws its own dtype: int64 and float64 cells side by side, in any order
+        kind = "int" if rng.random() < 0.5 else "float"
     if kind == "int":
         return rng.integers(-9, 10, size=(rows, nf)).astype(np.int64)
     return np.round(rng.normal(size=(rows, nf)) * 4.0, 2)
@@ -806,7 +811,22 @@ def _op_set_block_list(S, mode, via):
         return _op_set_cell(S, "data")  # a one-cell vector has no block of two cells
     idx, pat = S.index(m.shape, mode)
     S.extra = _pattern_fields(pat, m.ndim)
-    vals = _values_for(S, _count(m, idx))
+    _, pos = m._address(idx, neg_ok=True, exact=True)
+    targets = list(itertools.product(*pos))
+    if S.rng.random() < 0.15 and len(targets) >= 2 and all(m.cells[t] is not None for t in targets):
+        # an output fed back in: the list get_data returns for a block is assigned to the same block -> nothing changes
+        r = S.r
+        got, exc = S.call(lambda: r.get_data(*idx))
+        S.extra = dict(S.extra, value="get_data_result")
+        if S.expect_ok(exc, "get_data(%s)" % _fmt_idx(idx)) and isinstance(got, list):
+            same = lambda mm: mm.setitem(idx, [mm.cells[t].copy() for t in targets])  # noqa: E731
+            if via == "item":
+                k = S.key(idx)
+                S.mutate(lambda rr: rr.__setitem__(k, got), same, "v[%s] = get_data(%s)" % (_fmt_idx(idx), _fmt_idx(idx)))
+            else:
+                S.mutate(lambda rr: rr.set_data(got, *idx), same, "set_data(get_data(%s), %s)" % (_fmt_idx(idx), _fmt_idx(idx)))
+        return True
+    vals = _values_for(S, len(targets))
     given = [v.copy() for v in vals]
     if via == "item":
         k = S.key(idx)
@@ -907,10 +927,17 @@ def _pick_field(S):
 def _op_iop(S, op):
     rng, m = S.rng, S.m
     name = _pick_field(S)
-    if S.kind == "int":
+    if S.kind != "float":
+        # integer (or mixed) cells: integer-closed arithmetic only; with mixed cells the integers additionally stay far below
+        # 2**53 so that the float64 flattened view of an integer column is exact
         if op == "itruediv":
             op = "ifloordiv"
-        other = int(rng.choice([1, 2, 3, 5])) if op != "ipow" else int(rng.choice([0, 1, 2]))
+        if op == "ipow":
+            other = int(rng.choice([0, 1, 2] if S.kind == "int" else [0, 1]))
+        elif op == "imul":
+            other = int(rng.choice([1, 2, 3, 5] if S.kind == "int" else [-1, 1, 2]))
+        else:
+            other = int(rng.choice([1, 2, 3, 5]))
     else:
         other = float(rng.choice([2.0, -1.5, 0.5, 3.0, 1.25])) if op != "ipow" else float(rng.choice([2.0, 0.5, 1.0, 3.0, 0.0]))
         if rng.random() < 0.2:
@@ -998,10 +1025,39 @@ def _op_field_roundtrip(S):
 
 
 def _op_field_set(S, how):
-    rng, m = S.rng, S.m
+    """write a whole field: from fresh values (array / list) or from an output of the API fed back in (the field view of
+    another -- or the same -- field of this vector, of a copy, of another live vector with as many rows, a flattened field)"""
+    rng, m, r = S.rng, S.m, S.r
     name = _pick_field(S)
     total = sum(m.cells[ix].shape[0] for ix in m.populated())
-    vals = rng.integers(-20, 21, size=total).astype(np.float64) if S.kind == "int" or rng.random() < 0.3 else np.round(rng.normal(size=total) * 3, 2)
+    source = str(rng.choice(["fresh", "fresh", "fresh", "view_same_vector", "view_same_vector", "view_of_copy", "view_other_vector", "flattened_other_field"]))
+    S.extra = {"value": source}
+    if source != "fresh":
+        j = S.cur
+        if source == "view_other_vector":
+            cands = [i for i, (_, m2) in enumerate(S.live) if i != S.cur and sum(m2.cells[ix].shape[0] for ix in m2.populated()) == total]
+            if not cands:
+                source = S.extra["value"] = "view_same_vector"
+            else:
+                j = int(rng.choice(cands))
+        src_r, src_m = S.live[j]
+        other = str(rng.choice(src_m.fields))
+        vals = src_m.field_flatten(other)  # (a value: taken before the write)
+        if source == "view_of_copy":
+            src_r, exc = S.call(src_r.copy)
+            if not S.expect_ok(exc, "copy()"):
+                return False
+        desc = "v[%r] <- %s[%r] (%s)" % (name, "v" if source == "view_same_vector" else "w", other, source)
+        if source == "flattened_other_field":
+            get = lambda: src_r[other].flatten()  # noqa: E731
+        else:
+            get = lambda: src_r[other]  # noqa: E731  (a field view object, not an array)
+        if how == "set_flattened":
+            S.mutate(lambda rr: rr[name].set_flattened(get()), lambda mm: mm.set_flattened(name, vals), desc + " via set_flattened")
+        else:
+            S.mutate(lambda rr: rr.__setitem__(name, get()), lambda mm: mm.set_flattened(name, vals), desc + " via v[name] = ...")
+        return True
+    vals = rng.integers(-20, 21, size=total).astype(np.float64) if S.kind != "float" or rng.random() < 0.3 else np.round(rng.normal(size=total) * 3, 2)
     given = vals.tolist() if rng.random() < 0.2 else vals.copy()
     if how == "set_flattened":
         S.mutate(lambda r: r[name].set_flattened(given), lambda mm: mm.set_flattened(name, vals), "v[%r].set_flattened(%d values)" % (name, total), watch=[(given, "values of set_flattened", True)])
@@ -1034,13 +1090,13 @@ def _op_field_getitem(S):
 
 def _fresh_names(S, n):
     have = set(S.m.fields)
-    names = [p for p in POOL + ["f%d" % i for i in range(12)] if p not in have]
+    names = [p for p in POOL + ["f%d" % i for i in range(14)] if p not in have]
     return [str(x) for x in S.rng.permutation(names)[:n]]
 
 
 def _op_add_fields(S, how):
     rng, m = S.rng, S.m
-    if m.nf >= 7:
+    if m.nf >= 16:
         return _op_remove_fields(S, "list")
     if how == "str":
         new = _fresh_names(S, 1)[0]
@@ -1061,7 +1117,9 @@ def _op_remove_fields(S, how):
         names = _pick_field(S) if rng.random() < 0.85 else "no_such_field"
     else:
         k = int(rng.integers(1, m.nf))
-        names = [str(x) for x in rng.permutation(m.fields)[:k]]
+        if m.nf >= 6 and rng.random() < 0.4:
+            k = m.nf - int(rng.integers(1, 5))  # bulk removal: only a handful of fields survive
+        names = [str(x) for x in rng.permutation(m.fields)[:k]]  # (any name order)
         if rng.random() < 0.3:
             names.insert(int(rng.integers(len(names) + 1)), "no_such_field")
         if rng.random() < 0.2:
@@ -1263,6 +1321,9 @@ def _rand_iop(S):
     rng = S.rng
     if S.kind == "int":
         return str(rng.choice(["iadd", "isub", "imul"])), int(rng.choice([2, 3, 5]))
+    if S.kind == "mixed":
+        op = str(rng.choice(["iadd", "isub", "imul"]))
+        return op, (2 if op == "imul" else int(rng.choice([2, 3, 5])))
     return str(rng.choice(["iadd", "isub", "imul", "itruediv"])), float(rng.choice([2.0, -1.5, 0.5, 3.0]))
 
 
@@ -1558,9 +1619,9 @@ def _run_case(spec, idx, ctx):
     ctx.state["sess"] = S
     ctx.state["quiet"] = 1 if S.sparse else 0  # sparse: the invariant wrappers do not read the vectors either
     try:
-        S.kind = "int" if rng.random() < 0.25 else "float"
+        S.kind = str(rng.choice(["float", "float", "float", "float", "int", "int", "mixed", "mixed"]))
         shape = _rand_shape(rng, nd)
-        nf = int(rng.integers(1, 5))
+        nf = int(rng.integers(1, 5)) if rng.random() < 0.85 else int(rng.integers(9, 17))  # some wide peak-table-like vectors
         pair = S.new_vector(shape, nf)
         if pair is None:
             ctx.nontrivial((nd, "construction-failed"), False)
